@@ -165,7 +165,7 @@ fn exec(t: &Target, faults: &[Fault], rt: &tokio::runtime::Runtime, l: &mut Loca
         // of the same owner) need no fault scene
         let sc = {
             let qk = key_of(&t.q.0, t.q.1);
-            let payload = |x: &Fault| matches!(x, Fault::Resp { mv: Move::ForgeUnsigned | Move::ForgeSignedBy(_) | Move::ReplayWildcard { .. } | Move::Reorder { .. } | Move::StripAnswer | Move::StripAuthority | Move::StripBoth, .. });
+            let payload = |x: &Fault| matches!(x, Fault::Resp { mv: Move::ForgeUnsigned | Move::ForgeSignedBy(_) | Move::ReplayWildcard { .. } | Move::Reorder { .. } | Move::AugmentDnskeySet | Move::StripAnswer | Move::StripAuthority | Move::StripBoth, .. });
             match faults {
                 // general L2 x L2 pair: the move at the validator's own query only has to produce
                 // the claimed (positive / negative) shape, the decisive move is the other one
@@ -267,6 +267,9 @@ fn main() {
          an insecure zone, attacker key with the zone key's algorithm and key tag}; (L2) at every position: forge-unsigned, forge-signed-by \
          K, forge unsupported-algorithm DS, replay the zone's genuine wildcard RRset for the query name, strip answer/authority/both, \
          serve the records / the RRSIGs of an RRset in another order (all orders up to 3 records), \
+         INJECT ALONGSIDE the intact response one attacker record {DS for the attacker key, attacker DNSKEY, NS, A} under {own owner, \
+         stray owner, parent apex, sibling} x {unsigned, attacker-signed} x {answer, authority}, augment the DNSKEY RRset with the \
+         attacker key + its signature over the whole set, \
          replace the response by a GENUINE signed RRset of the answering zone or its parent, re-owned (all records and RRSIGs, RDATA \
          and signatures untouched) to {query name, secure delegation point, existing signed name, next-closer name} [quick: wildcard-owned \
          and apex NSEC/NSEC3 and the SOA, authority section; thorough: every NSEC/NSEC3 RRset and one RRset of every other type, \
@@ -418,7 +421,22 @@ fn main() {
                 if i % 61 == 0 {
                     let a = run_case(&t.hier, &t.q, std::slice::from_ref(f), rt);
                     let b = run_case(&t.hier, &t.q, std::slice::from_ref(f), rt);
-                    if a.outcome != b.outcome {
+                    // what must be identical: the oracle's view (findings and the outcome class, with
+                    // "error" and "only Bogus records" counted as the same rejection - hickory's
+                    // HashMap iteration order decides which of the two a validation loop ends in)
+                    let view = |r: &oracle::Run| {
+                        let j = judge(&t.hier, &t.q, &t.honest_answer, &r.outcome);
+                        let class = if j.class == "error" || j.class == "ok:bogus" || j.class == "ok:" { "rejected".to_string() } else { j.class.clone() };
+                        (class, j.findings.iter().map(|x| x.clause.clone()).collect::<Vec<_>>())
+                    };
+                    let (va, vb) = (view(&a), view(&b));
+                    if va.1 == vb.1 && va.0 != vb.0 {
+                        // same (empty or equal) findings, different acceptable outcomes - e.g. the
+                        // published truth accepted in one run and an error in the other: hickory's
+                        // HashMap iteration order inside a validation loop; not a soundness matter
+                        l.outcome_sample("obs:order-dependent-outcome-with-equal-findings", || json!(format!("{} {:?} {:?}: {} vs {}", t.hier.name, t.q, f, va.0, vb.0)));
+                    }
+                    if va.1 != vb.1 {
                         nondet.store(true, std::sync::atomic::Ordering::SeqCst);
                         eprintln!("nondeterministic outcome: {} {:?} {:?}", t.hier.h.name, t.q, f);
                     }
@@ -482,7 +500,9 @@ fn main() {
             .singles
             .iter()
             .filter(|f| *f.q() == qk)
-            .filter(|f| (general && matches!(f, Fault::Resp { .. })) || matches!(f, Fault::Resp { mv: Move::ForgeUnsigned | Move::ForgeSignedBy(_) | Move::ReplayWildcard { .. } | Move::Reorder { .. } | Move::StripAnswer | Move::StripAuthority | Move::StripBoth, .. }))
+            // (additive moves - inject alongside, re-owned RRsets put into the answer section - are no
+            // denial-shaped first moves; they take part in the general pairs as second moves)
+            .filter(|f| (general && matches!(f, Fault::Resp { .. }) && !matches!(f, Fault::Resp { mv: Move::InjectAlongside { .. } | Move::Reowned { answer: true, .. }, .. })) || matches!(f, Fault::Resp { mv: Move::ForgeUnsigned | Move::ForgeSignedBy(_) | Move::ReplayWildcard { .. } | Move::Reorder { .. } | Move::AugmentDnskeySet | Move::StripAnswer | Move::StripAuthority | Move::StripBoth, .. }))
             .collect();
         for a in firsts {
             for b in t.singles.iter().filter(|f| *f.q() != qk) {
@@ -492,7 +512,7 @@ fn main() {
                     Fault::Rec { .. } => thorough && !ds_mix,
                 };
                 // the general pairs are L2 x L2: a non-payload first move is not paired with L1 faults
-                let payload = matches!(a, Fault::Resp { mv: Move::ForgeUnsigned | Move::ForgeSignedBy(_) | Move::ReplayWildcard { .. } | Move::Reorder { .. } | Move::StripAnswer | Move::StripAuthority | Move::StripBoth, .. });
+                let payload = matches!(a, Fault::Resp { mv: Move::ForgeUnsigned | Move::ForgeSignedBy(_) | Move::ReplayWildcard { .. } | Move::Reorder { .. } | Move::AugmentDnskeySet | Move::StripAnswer | Move::StripAuthority | Move::StripBoth, .. });
                 let ok = ok && (payload || matches!(b, Fault::Resp { .. }));
                 if ok {
                     pairs.push((ti, a.clone(), b.clone()));
@@ -504,12 +524,12 @@ fn main() {
     ctx.set("pair_faults", json!(pairs.len()));
     if !thorough {
         ctx.set("not_enumerated", json!(format!(
-            "quick tier: pairs only for the positive-A, DS and DNSKEY queries ({} of {} targets skipped for pairs), second fault = L2 moves without attacker-signed denial records; no L1xL2 pairs, no triples",
+            "quick tier: pairs only for the positive-A, DS and DNSKEY queries ({} of {} targets skipped for pairs), second fault = L2 moves without attacker-signed denial records; no L1xL2 pairs, triples only along the chain for two hierarchies; inject-alongside only with DS / DNSKEY material at the query and at DS / DNSKEY positions",
             cut_targets,
             targets.len()
         )));
     } else {
-        ctx.set("not_enumerated", json!("thorough tier: pairs are (forge/strip move at the validator's query) x (any single fault elsewhere); plus GENERAL L2xL2 pairs for two representative targets (all-signed www A, signed-next-to-insecure NXDOMAIN); triples are not enumerated"));
+        ctx.set("not_enumerated", json!("thorough tier: pairs are (forge/strip move at the validator's query) x (any single fault elsewhere); plus GENERAL L2xL2 pairs for two representative targets (all-signed www A, signed-next-to-insecure NXDOMAIN); triples only along the chain (forge-signed-by-attacker@query x attacker key in the DNSKEY RRset x attacker DS injected alongside)"));
     }
     let tg = &targets;
     let sv = &single_viol;
@@ -520,6 +540,49 @@ fn main() {
         |i, l, rt| {
             let (ti, a, b) = &pairs[i as usize];
             exec(&tg[*ti], &[a.clone(), b.clone()], rt, l, Some(sv));
+        },
+    );
+
+    // ---- D2: triples along the chain: forged data signed with the attacker key at the validator's
+    // query x (attacker key put into / in place of the DNSKEY RRset) at a DNSKEY position x (attacker
+    // DS injected alongside the intact DS response) at a DS position; for the positive-A targets of
+    // the hierarchies that get DS/DNSKEY pairs (quick: two hierarchies, thorough: all non-ds-mix)
+    let mut triples: Vec<(usize, [Fault; 3])> = vec![];
+    for (ti, t) in targets.iter().enumerate() {
+        let qi = t.hier.queries.iter().position(|q| *q == t.q).unwrap_or(99);
+        let chosen = qi == 0 && !t.hier.name.starts_with("ds-mix:") && (thorough || ["all-signed", "signed-next-to-insecure"].contains(&t.hier.name.as_str()));
+        if !chosen {
+            continue;
+        }
+        let qk = key_of(&t.q.0, t.q.1);
+        let firsts: Vec<&Fault> = t.singles.iter().filter(|f| *f.q() == qk && matches!(f, Fault::Resp { mv: Move::ForgeSignedBy(faults::KeyChoice::AttackerSameZone), .. })).collect();
+        let keys: Vec<&Fault> = t
+            .singles
+            .iter()
+            .filter(|f| *f.q() != qk && f.q().1 == u16::from(RecordType::DNSKEY) && matches!(f, Fault::Resp { mv: Move::AugmentDnskeySet | Move::ForgeSignedBy(faults::KeyChoice::AttackerSameZone), .. }))
+            .collect();
+        let dss: Vec<&Fault> = t
+            .singles
+            .iter()
+            .filter(|f| *f.q() != qk && f.q().1 == u16::from(RecordType::DS) && matches!(f, Fault::Resp { mv: Move::InjectAlongside { what: RecordType::DS, .. }, .. }))
+            .collect();
+        for a in &firsts {
+            for b in &keys {
+                for c in &dss {
+                    triples.push((ti, [(*a).clone(), (*b).clone(), (*c).clone()]));
+                }
+            }
+        }
+    }
+    ctx.set("triple_faults", json!(triples.len()));
+    eprintln!("[C07] pairs done, {} triples at {:.1}s", triples.len(), ctx.elapsed_s());
+    ctx.par_run_init(
+        triples.len() as u64,
+        16,
+        |_| vsim::rt(),
+        |i, l, rt| {
+            let (ti, f) = &triples[i as usize];
+            exec(&tg[*ti], &f[..], rt, l, Some(sv));
         },
     );
 
